@@ -80,7 +80,7 @@ func (vc *VC) mapVal(st *State, k, v string) Term {
 func (vc *VC) mapLookup(st *State, m Term, key Term, vsort string) (val Term, ok Term) {
 	dom := Select(vc.mapDom(st, key.Sort, vsort), m)
 	vals := Select(vc.mapVal(st, key.Sort, vsort), m)
-	ok = Select(dom, key)
+	ok = And(Not(Eq(m, IntLit(0))), Select(dom, key))
 	val = Ite(ok, Select(vals, key), zeroOfSort(vsort))
 	return
 }
